@@ -484,7 +484,8 @@ PROPS = {
             "every frame whose source is a CallFunction byte resolves to the Call / DynamicCall card that emitted it, "
             "under that card's namespace. 'Emitted by' is a ghost of the proof: a list of process_card runs (card, "
             "index, byte range), existentially quantified, each anchored to a real execution of process_card on that "
-            "card at that index (run_ok), ranges nested or disjoint by construction; that the list contains EVERY "
+            "card at that index whose recorded trace is a suffix of the program's trace in emission order (run_ok), "
+            "ranges nested or disjoint by construction; that the list contains EVERY "
             "nested process_card call is true of the construction but not part of the statement",
             "carve-outs kept explicit in entry_resolves: N-C15-3 (an address in no process_card run: scope-end Pop / "
             "CloseUpvalue, ScalarNil, Return, Exit of the function epilogues; for a non-main function WITH cards the "
